@@ -91,6 +91,9 @@ structure DS where
   probe : Bool := true
   ckIdx : Nat := 0              -- checkpoint: `ckDisk` is the disk after the first `ckIdx` operations
   ckDisk : Disk := {}
+  wr : List Op := []            -- every entry handed to Write, in order
+  synced : List (Nat × List Op) := []   -- (index just after an fsync, entries loadable from the disk then), newest first
+  tickSyncs : Bool := true      -- fileWriterHandler → chronicler.Sync → FileWriter.Sync → fsync, all present
 
 def DS.mk' (s : DS) : Mk := fun es =>
   match s.tbl.find? (fun p => p.2.ents == es) with
@@ -128,8 +131,25 @@ def parseLogOp (s : DS) (f : List String) : Option FsOp :=
     | _ => none
   | _ => none
 
+def loadedEntries (c : Cfg) (d : Disk) : List Op :=
+  match d.main with
+  | some f => (match loadFile c.r f with | .ok es => es | _ => [])
+  | none => []
+
 def DS.push (s : DS) (ops : List FsOp) : DS :=
-  { s with mops := s.mops ++ ops, mdisk := s.mdisk.applyAll ops }
+  let s1 := { s with mops := s.mops ++ ops, mdisk := s.mdisk.applyAll ops }
+  -- an fsync is always the last operation of the act that issues it
+  match ops.getLast? with
+  | some (.sync .main) => { s1 with synced := (s1.mops.length, loadedEntries s.cfg s1.mdisk) :: s1.synced }
+  | _ => s1
+
+/-- entries durable while operation `i` is in flight: those loadable at the last fsync that completed before it -/
+def DS.syncedAt (s : DS) (i : Nat) : List Op :=
+  match s.synced.find? (fun p => p.1 ≤ i) with
+  | some p => p.2
+  | none => []
+
+def isPrefixOf (a b : List Op) : Bool := a.length ≤ b.length && b.take a.length == a
 
 def parseItems (str : String) : List (Op × Nat) :=
   (str.splitOn ",").filterMap fun it =>
@@ -167,6 +187,10 @@ structure Eval where
   text : String
   cOk : Bool
   aOk : Bool
+  lText : String := ""
+  cEnts : List Op := []     -- entries the load of the image returned ([] when it failed)
+  cState : Index := []
+  aState : Index := []
 
 /-- load an image as the harness does: reader, chronicler Load, probe append, reload -/
 def evalImage (s : DS) (img : Disk) (expectC : Index) : Eval :=
@@ -184,7 +208,11 @@ def evalImage (s : DS) (img : Disk) (expectC : Index) : Eval :=
   let d5 := d4.applyAll (loadOps c d4)
   let st2 := recover c d5
   let txt := if s.probe then s!"L:{l} C:{showIndex st} A:{showIndex st2}" else s!"L:{l} C:{showIndex st}"
-  { text := txt, cOk := sameIndex st expectC, aOk := !s.probe || sameIndex st2 (Index.put expectC 9000 77) }
+  let ents := match d1.main with
+    | some f => (match loadFile c.r f with | .ok es => es | _ => [])
+    | none => []
+  { text := txt, cOk := sameIndex st expectC, aOk := !s.probe || sameIndex st2 (Index.put expectC 9000 77),
+    lText := l, cEnts := ents, cState := st, aState := st2 }
 
 def pendingText (s : DS) : String :=
   match s.mops[s.cursor]? with
@@ -212,7 +240,12 @@ def step (h : Hooks) (s0 : DS) (line : String) : DS × String :=
   let s := if line.startsWith "act " then s0.checkpoint else s0
   match (line.splitOn " ").filter (· ≠ "") with
   | "case" :: _ =>
-    ({ cfg := s.cfg, probe := s.probe }, line)
+    ({ cfg := s.cfg, probe := s.probe, tickSyncs := s.tickSyncs }, line)
+  | ["tick", n] =>
+    let n := nat n
+    if s.tickSyncs then
+      (s, "tick " ++ showIndex ((List.range n).map fun i => (i + 1, 101 + i)))
+    else (s, "tick -\t#F:C02-ack-not-durable")
   | "cfg" :: rest =>
     let kv := parseArgs rest
     let nl := nat (arg kv "nl")
@@ -228,7 +261,7 @@ def step (h : Hooks) (s0 : DS) (line : String) : DS × String :=
     -- Spec: a write is accepted iff the chronicler has (or can open) a writer
     let accepted := (ensureW s.cfg s.mdisk s.cs).isSome
     let spec := if accepted then Index.replay s.spec (its.map (·.1)) else s.spec
-    ({ (s.push ops) with cs := cs1, spec := spec }, "ok")
+    ({ (s.push ops) with cs := cs1, spec := spec, wr := s.wr ++ its.map (·.1) }, "ok")
   | ["act", "sync", _] =>
     let (cs1, ops) := cSync s.cfg s.mk' s.cs
     ({ (s.push ops) with cs := cs1 }, "ok ok")
